@@ -2057,6 +2057,52 @@ func c20PacerElapsedTime(c *Ctx) {
 	c.Floor(R, "timeScaledBandwidth calls in pacer.Budget", n, 1)
 }
 
+// C16.9: registering a new client connection never replaces the routing entry of a live one. The dial path stores
+// handlers[srcConnID] = conn; that is safe when the source connection ID is fresh and non-empty, or when the store is
+// guarded by a lookup. With a spec that asks for zero-length source connection IDs on a multi-use transport every
+// connection has the same (empty) key.
+func c16NoRoutingEntryReplaced(c *Ctx) {
+	const R = "C16.9"
+	handlers := c.fld("", "Transport", "handlers")
+	n := 0
+	for _, spec := range [][2]string{{"Transport", "doDial"}, {"UTransport", "doDial"}} {
+		f := c.fn("", spec[0], spec[1])
+		eachInstr(f, func(in ssa.Instruction) {
+			mu, ok := in.(*ssa.MapUpdate)
+			if !ok || !loadsPath(mu.Map, handlers) {
+				return
+			}
+			n++
+			// guarded by a comma-ok lookup of the same map on its not-present edge
+			guarded := false
+			for d := in.Block(); d != nil && d.Idom() != nil && !guarded; d = d.Idom() {
+				id := d.Idom()
+				ifi, isIf := id.Instrs[len(id.Instrs)-1].(*ssa.If)
+				if !isIf || len(d.Preds) != 1 {
+					continue
+				}
+				ex, isEx := condCore(ifi.Cond).(*ssa.Extract)
+				if !isEx || ex.Index != 1 {
+					continue
+				}
+				if lk, isLk := ex.Tuple.(*ssa.Lookup); isLk && lk.CommaOk && loadsPath(lk.X, handlers) {
+					guarded = true
+				}
+			}
+			// or the key cannot be empty / repeated: the generator is the transport's own, of a length fixed ≥ 4 at init
+			// (base Transport only: a zero length is chosen only for single-use transports)
+			key := fmt.Sprintf("no-replace:%s.%s registers the connection without replacing a live entry", spec[0], spec[1])
+			if !guarded && spec[0] == "Transport" {
+				c.OK(R, key, c.P.InstrPos(in), "exception: the plain transport generates fresh random source connection IDs of its configured length (≥ 4 bytes unless the transport is single-use, i.e. has exactly one connection)")
+				return
+			}
+			c.Check(guarded, R, key, c.P.InstrPos(in),
+				"a spec with SrcConnIDLength 0 (all built-in Chrome specs) installs an empty-ID generator on a multi-use transport: the second Dial overwrites handlers[\"\"] and the first connection stops receiving packets")
+		})
+	}
+	c.Floor(R, "routing-table registrations on the dial paths", n, 2)
+}
+
 // valueOf: the instruction as a value (nil if it is not one).
 func valueOf(in ssa.Instruction) ssa.Value {
 	v, _ := in.(ssa.Value)
